@@ -1,6 +1,7 @@
 package main
 
 import (
+	"strconv"
 	"fmt"
 	"go/ast"
 	"go/types"
@@ -162,6 +163,17 @@ func (u *Universe) verifyContract(c *Contract, variant map[string]string) (res *
 		// unnamed parameter: keep under a synthetic object so that contracts can mention it
 		o := types.NewVar(fd.Pos(), pkg.Types, cname, t)
 		st.vars[o] = v
+	}
+	// parameters modelled as fixed-length sequences
+	x.seqLens = map[string]int{}
+	for pn, ln := range c.SeqLens {
+		if v, ok := specConstsNow[ln]; ok {
+			x.seqLens[pn] = int(v)
+		} else if n, err := strconv.Atoi(ln); err == nil {
+			x.seqLens[pn] = n
+		} else {
+			unsupported("%s: seqlen %s %s: not a number or a specialize constant", c.Where, pn, ln)
+		}
 	}
 	pi := 0
 	if sig.Recv() != nil {
